@@ -158,7 +158,7 @@ def program(spec: EnumSpec, pname, tier):
 
 def build(tier, seed):
     rng = mk_rng(seed, "C04")
-    specs = pivot() + random_specs(rng, 3 if tier == "quick" else 20)
+    specs = pivot() + random_specs(rng, 6 if tier == "quick" else 24)
     programs = [program(s, "p%03d" % i, tier) for i, s in enumerate(specs)]
     cg_body = """    use strum::{IntoEnumIterator, EnumCount};
     type E = Cg<3>;
